@@ -282,10 +282,16 @@ fn run(case: &str) -> String {
             None => "E".to_string(),
         };
         let db = if dlf_expressible(a) {
-            match filters_from_dlf(to_dlf(a).as_bytes()) {
+            // the file in one line, and formatted with one element per line (the way dlt-viewer writes it)
+            let compact = to_dlf(a);
+            // (white space between the elements only - not inside an empty element, which would be another value)
+            let pretty = compact.replace("><", ">\n        <").replace(">\n        </", "></");
+            let load = |t: &str| match filters_from_dlf(t.as_bytes()) {
                 Ok(fs) if fs.len() == 1 => bits(&msgs.iter().map(|m| fs[0].matches(m)).collect::<Vec<_>>()),
                 _ => "E".to_string(),
-            }
+            };
+            let (b1, b2) = (load(&compact), load(&pretty));
+            if b1 == b2 { b1 } else { format!("{}/{}", b1, b2) }
         } else {
             "-".to_string()
         };
